@@ -12,10 +12,12 @@
    - C03_create_answers / C03_complete_answers: for EVERY coroutine state reachable from the start of a create /
      complete request and EVERY store answer, the response is the prescribed one and the next state is again such
      a state (an inductive invariant of the coroutine, including its restarts after a lost conditional write).
-   Not proved for all schedules (hence "partial"): that the history monitor C03_mon itself is empty on every trace
-   (it needs the link "coroutine id -> request it carries" through the kernel); it is evaluated on every
-   implementation trace by the check. *)
-From RV Require Import Mon MonC01 MonC04 MonC03 SysInv PC01 PC04 PC03.
+   - C03_answers_every_schedule: for EVERY schedule of the interleaving system the history monitor for clause 301
+     (C03a_mon: it remembers which request each coroutine id carries) is empty: the answer to every create /
+     create-with-task / complete request is the prescribed one, whatever is interleaved, lost, retried or crashed.
+   Not proved for all schedules (hence "partial"): clause 302 (at most one "took effect" answer per id and kind);
+   it is evaluated on every implementation trace by the check (C03_mon reports 301 and 302). *)
+From RV Require Import Mon MonC01 MonC04 MonC03 SysInv PC01 PC04 PC03 PT03.
 
 Theorem C03_rows : forall cfg sch, sch_wf sch -> C01_mon (events cfg sch) = [] /\ C04_mon_partial (events cfg sch) = [].
 Proof. intros cfg sch H. split; [exact (C01_trace cfg sch H)|exact (C04_trace_partial cfg sch H)]. Qed.
@@ -34,6 +36,10 @@ Theorem C03_complete_answers : forall cfg k c now next r,
     (forall k' n, o_state (resume_seq cfg k c now next) = CSeq k' n -> kcomplete k' r).
 Proof. exact complete_step. Qed.
 Print Assumptions C03_complete_answers.
+
+Theorem C03_answers_every_schedule : forall cfg sch, sch_wf sch -> C03a_mon (events cfg sch) = [].
+Proof. exact C03a_trace. Qed.
+Print Assumptions C03_answers_every_schedule.
 
 Theorem C03_start : forall now next k n,
     (forall r, o_state (start_req (QCreatePromise r) now next) = CSeq k n -> kcreate k r) /\
@@ -81,5 +87,5 @@ Definition bad_trace : list (directive * list obs) :=
   [ (DTick 1 [] [] [("a"%string, QCreatePromise (cr (Some "k1"%string) false))], [OInst "a" [] (Some (RspPromise 20100 (Some prow)))]);
     (DTick 2 [] [] [("b"%string, QCreatePromise (cr (Some "k2"%string) false))], [OInst "b" [] (Some (RspPromise 20000 (Some prow)))]);
     (DTick 3 [] [] [("c"%string, QCreatePromise (cr (Some "k1"%string) false))], [OInst "c" [] (Some (RspPromise 20100 (Some prow)))]) ].
-Example C03_monitor_detects : C03_mon bad_trace = [(301, 1%nat); (302, 2%nat)].
-Proof. vm_compute. reflexivity. Qed.
+Example C03_monitor_detects : C03_mon bad_trace = [(301, 1%nat); (302, 2%nat)] /\ C03a_mon bad_trace = [(301, 1%nat)].
+Proof. vm_compute. split; reflexivity. Qed.
